@@ -5,6 +5,6 @@ cd "$(dirname "$0")"
 export CARGO_NET_OFFLINE=true
 (cd harness && cargo build --offline --bins 2>&1 | tail -3)
 ./harness/target/debug/translator /repo lean/CnbVerif/Gen || true
-(cd lean && lake build 2>&1 | tail -3 && lake build driver 2>&1 | tail -1)
+(cd lean && lake build 2>&1 | tail -3 && lake build $(for i in $(seq -w 1 20); do echo driver_c$i; done) 2>&1 | tail -1)
 [ -f harness/shim/faultfs.c ] && gcc -shared -fPIC -O1 -o harness/target/faultfs.so harness/shim/faultfs.c -ldl || true
 echo setup-done
